@@ -15,7 +15,7 @@ def classify(name, evs, fl):
 def subchecks(c):
     c.trusted += ["Go harness /verif/harness/sm (recording RoundTimer) and the model / monitor evaluation inside coqc"]
     tok, binary = S.prepare(c)
-    proved = tok and c.prove("C12sm")
+    proved = tok and c.prove("C12sm") and c.prove("C12smInv")
     if binary is None:
         return False
     n, steps = (40, 40) if c.tier == "quick" else (300, 60)
